@@ -13,8 +13,12 @@
 //!   inflight  reads of every kind demonstrably inside their read transaction while batch() is at the threshold
 //!   handles several Store handles on one environment; the handle that did not commit last writes the big batch
 //!   growth  growth through many resizes (more than 10 allocation chunks), fixed and random batch sizes
+//!   slowreader  a reader / an un-committed batch held open for 12.5 s (thorough: also 45 s, 100 s) while a
+//!           resize is pending: everything that arrives in the window must wait and then succeed
 //!   frag    fragmented free space (deletes / overwrites of a large share of the data) followed by
 //!           growth with multi-page values: resizes must come in time, no put / commit may fail
+//!   newprobe  (by hand only, not in checks/C18.json; may crash the process) Store::new in a loop on an open
+//!           environment while a deferred resize is released: its write transaction is outside the gate
 //!   crash-child <dir> <kind> <n>   (internal: the process that gets killed)
 //!
 //! One line per operation: `kv <op> <args> => <what the implementation answered>`; the Lean
@@ -4717,6 +4721,687 @@ fn mode_handles(work: &str, seed: u64, thorough: bool) {
 	out.flush();
 }
 
+// ---------------------------------------------------------------------------------------------
+// mode slowreader: operations that arrive while a resize is PENDING must wait and then succeed,
+// however long the transaction that defers the resize lives.  Per window length (quick: 12.5 s;
+// thorough also 45 s and 100 s; all scenarios run concurrently, each on its own environment):
+//
+//   iter   thread R opens a store iterator and keeps it for the whole window; thread W's
+//          Store::batch() finds the map above the threshold (resize due -> deferred to the waiter
+//          thread, W itself waits at the gate);
+//   batch  thread R opens an iterator, calls Store::batch() at the threshold (the resize is
+//          requested and deferred behind R's own iterator, R passes the gate as nested), drops
+//          the iterator and keeps the UN-COMMITTED batch for the whole window, then commits;
+//          W's batch() arrives right after R's.
+//
+// In three waves (0.4 s after W, in the middle of the window, 1.5 s before its end) four threads
+// each issue Store::exists, Store::get_ser, Store::iter (drained) and batch()+put+commit.  In the
+// middle of the window R itself does a lookup under its own transaction (nested: must not wait).
+// Oracle (#ORACLE-FAIL): every operation returns Ok with the committed value, W's batch commits,
+// the map has grown afterwards, nothing returned an error of any kind, nothing stalls (watchdog);
+// a resized map must not be seen by a batch() that returned before R released.  Driver lines:
+// `kv gate-op <who> <kind> nested=<b> pending=<b> => ok|err:<kind>` (spec: ok), `kv gate-wait …
+// => blocked|direct|early|failed` (model: an outside thread waits until the release, a nested one
+// does not), the answers as `read-outside` / `begin` `put` `commit` lines, `rz-batch`, `txseq`.
+// ---------------------------------------------------------------------------------------------
+fn err_kind(e: &Error) -> &'static str {
+	match e {
+		Error::NotFoundErr(_) => "NotFoundErr",
+		Error::LmdbErr(_) => "LmdbErr",
+		Error::SerErr(_) => "SerErr",
+		Error::FileErr(_) => "FileErr",
+		Error::OtherErr(_) => "OtherErr",
+	}
+}
+
+struct Sl {
+	lines: Vec<String>,
+	sh: Shadow,
+	fails: u64,
+	tag: String,
+}
+impl Sl {
+	fn line(&mut self, lhs: &str, rhs: &str) {
+		self.lines.push(format!("{} => {}", lhs, rhs));
+	}
+	fn raw(&mut self, s: &str) {
+		self.lines.push(s.to_string());
+	}
+	fn oracle_fail(&mut self, msg: String) {
+		self.fails += 1;
+		self.lines.push(format!("#ORACLE-FAIL C18 slowreader {}: {}", self.tag, msg));
+	}
+	/// one committed batch of puts on the calling thread, with its lines
+	fn plain_batch(&mut self, store: &Store, ws: &[(Db, Vec<u8>, Vec<u8>)], recs: &[(Db, Vec<u8>, u64, Vec<u8>)]) {
+		let mut b = match store.batch() {
+			Ok(b) => b,
+			Err(e) => {
+				self.oracle_fail(format!("set-up Store::batch failed: {:?}", e));
+				self.line("kv begin", "err");
+				return;
+			}
+		};
+		self.sh.stack.push(vec![]);
+		self.line("kv begin", "ok");
+		for (db, k, v) in ws {
+			let ans = fmt_unit(b.put(*db, k, v));
+			if ans == "ok" {
+				self.sh.write((db_id(*db), k.clone()), Some(v.clone()));
+			} else {
+				self.oracle_fail(format!("set-up put of {} bytes failed", v.len()));
+			}
+			self.line(&format!("kv put {} {} {}", db_tok(*db), hex(k), valtok(v)), &ans);
+		}
+		for (db, k, tag, body) in recs {
+			let rec = Rec { tag: *tag, body: body.clone() };
+			let ans = fmt_unit(b.put_ser(*db, k, &rec));
+			if ans == "ok" {
+				self.sh.write((db_id(*db), k.clone()), Some(ser::ser_vec(&rec, b.protocol_version()).unwrap()));
+			}
+			self.line(&format!("kv putser {} {} {} {}", db_tok(*db), hex(k), tag, hex(body)), &ans);
+		}
+		let ans = fmt_unit(b.commit());
+		if ans == "ok" {
+			self.sh.commit();
+		} else {
+			self.sh.stack.pop();
+			self.oracle_fail("set-up commit failed".to_string());
+		}
+		self.line("kv commit", &ans);
+	}
+}
+
+/// one operation issued at the gate, as its thread saw it
+struct GateOp {
+	who: String,
+	kind: &'static str,
+	issued: Instant,
+	/// when the call that passes the gate returned (reads: the whole read; batch: `Store::batch()`)
+	returned: Instant,
+	committed: Option<Instant>,
+	/// `ok` | `err:<kind>[@stage]` | `panic`
+	res: String,
+	/// the formatted answer of a read; the put / commit answers of a batch
+	value: String,
+	/// W's batch() had not returned when this was issued
+	w_waiting: bool,
+	key: Vec<u8>,
+	val: Vec<u8>,
+}
+
+fn gate_op(store: &Store, who: &str, kind: &'static str, key: Vec<u8>, val: Vec<u8>, w_waiting: bool) -> GateOp {
+	let issued = Instant::now();
+	let mut committed = None;
+	let r = std::panic::catch_unwind(std::panic::AssertUnwindSafe(|| -> (String, String, Instant) {
+		match kind {
+			"exists" => {
+				let r = store.exists(Some(b'A'), &key);
+				let t = Instant::now();
+				match r {
+					Ok(b) => ("ok".into(), b.to_string(), t),
+					Err(e) => (format!("err:{}", err_kind(&e)), "err".into(), t),
+				}
+			}
+			"get_ser" => {
+				let r = store.get_ser::<Rec>(Some(b'A'), &key, None);
+				let t = Instant::now();
+				match r {
+					Ok(o) => ("ok".into(), fmt_rec(Ok(o)), t),
+					Err(e) => (format!("err:{}", err_kind(&e)), "err".into(), t),
+				}
+			}
+			"iter" => match store.iter(Some(b'B'), kvpair) {
+				Ok(it) => {
+					let t = Instant::now();
+					let mut v = vec![];
+					let mut bad = None;
+					for x in it {
+						match x {
+							Ok(kv) => v.push(kv),
+							Err(e) => {
+								bad = Some(err_kind(&e));
+								break;
+							}
+						}
+					}
+					match bad {
+						None => ("ok".into(), fmt_items(&v), t),
+						Some(k) => (format!("err:{}@next", k), "err".into(), t),
+					}
+				}
+				Err(e) => (format!("err:{}", err_kind(&e)), "err".into(), Instant::now()),
+			},
+			_ => match store.batch() {
+				Ok(mut b) => {
+					let t = Instant::now();
+					let p = b.put(Some(b'Z'), &key, &val);
+					let pk = p.as_ref().err().map(err_kind);
+					let c = b.commit();
+					committed = Some(Instant::now());
+					let ck = c.as_ref().err().map(err_kind);
+					let value = format!("{}|{}", fmt_unit(p), fmt_unit(c));
+					match (pk, ck) {
+						(None, None) => ("ok".into(), value, t),
+						(Some(k), _) => (format!("err:{}@put", k), value, t),
+						(_, Some(k)) => (format!("err:{}@commit", k), value, t),
+					}
+				}
+				Err(e) => (format!("err:{}@batch", err_kind(&e)), "err|err".into(), Instant::now()),
+			},
+		}
+	}));
+	let (res, value, returned) = r.unwrap_or_else(|_| ("panic".to_string(), "panic".to_string(), Instant::now()));
+	GateOp { who: who.to_string(), kind, issued, returned, committed, res, value, w_waiting, key, val }
+}
+
+struct RRes {
+	/// lines before the window / the nested lookup / lines at the release
+	head: Vec<(String, String)>,
+	tail: Vec<(String, String)>,
+	mid: Option<GateOp>,
+	t_release: Option<Instant>,
+	fails: Vec<String>,
+}
+
+fn slow_scenario(dir: String, seed: u64, kind: &'static str, hold_ms: u64) -> Vec<String> {
+	global::set_local_chain_type(ChainTypes::AutomatedTesting);
+	let mut sl = Sl { lines: vec![], sh: Shadow::default(), fails: 0, tag: format!("{} hold={}ms", kind, hold_ms) };
+	let mut rng = Rng::new(seed ^ hold_ms ^ (kind.len() as u64) << 20);
+	let store = Arc::new(open_store(&dir));
+	let toks: Vec<String> = all_dbs().iter().map(|d| db_tok(*d)).collect();
+	sl.line(&format!("kv new [{}]", toks.join(",")), "ok");
+	// the targets of the reads
+	let tag = 9000 + hold_ms;
+	let body = rng.bytes(24);
+	let mut ws: Vec<(Db, Vec<u8>, Vec<u8>)> = vec![];
+	for i in 0..6u8 {
+		ws.push((Some(b'A'), vec![b'k', b'0' + i], rng.bytes(20)));
+		ws.push((Some(b'B'), vec![b'i', i], vec![i; 12]));
+	}
+	sl.plain_batch(&store, &ws, &[(Some(b'A'), b"slow".to_vec(), tag, body.clone())]);
+	// fill above the threshold
+	let mut n = 0u64;
+	loop {
+		let m = meta_info(&dir).unwrap_or((1, 0, 0));
+		if m.1 * 4096 * 10 > 9 * m.0 || n > 60 {
+			break;
+		}
+		let v = vec![n as u8; 60_000];
+		sl.plain_batch(&store, &[(Some(b'Z'), format!("fill{:03}", n).into_bytes(), v)], &[]);
+		n += 1;
+	}
+	let pre = meta_info(&dir).unwrap_or((0, 0, 0));
+	sl.line(&format!("kv rz-new {} {}", pre.0, 1_048_576), "ok");
+	let used = pre.1 * 4096;
+	if used * 10 <= 9 * pre.0 {
+		sl.oracle_fail(format!("could not fill the environment above the threshold (used {} of {})", used, pre.0));
+	}
+	let k1 = vec![b'k', b'1'];
+	let want_exists = "true".to_string();
+	let want_rec = format!("rec:{}:{}", tag, showval(&body));
+	let want_iter = fmt_items(&Shadow::items(&sl.sh.committed, Some(b'B')));
+	let rval = rng.bytes(100);
+
+	// ---- thread R: the long-lived transaction
+	let (ready_tx, ready_rx) = mpsc::channel::<()>();
+	let (rres_tx, rres_rx) = mpsc::channel::<RRes>();
+	{
+		let store = store.clone();
+		let k1 = k1.clone();
+		let rval = rval.clone();
+		thread::spawn(move || {
+			global::set_local_chain_type(ChainTypes::AutomatedTesting);
+			let mut rr = RRes { head: vec![], tail: vec![], mid: None, t_release: None, fails: vec![] };
+			let r = std::panic::catch_unwind(std::panic::AssertUnwindSafe(|| {
+				let hold = Duration::from_millis(hold_ms);
+				let mut it = match store.iter(Some(b'B'), kvpair) {
+					Ok(it) => it,
+					Err(e) => {
+						rr.fails.push(format!("R: Store::iter failed: {:?}", e));
+						let _ = ready_tx.send(());
+						return;
+					}
+				};
+				rr.head.push(("kv it-open t1 66".into(), "ok".into()));
+				if kind == "iter" {
+					let mut v = vec![];
+					if let Some(Ok(kv)) = it.next() {
+						v.push(kv);
+					}
+					rr.head.push(("kv it-next t1 1".into(), fmt_items(&v)));
+					let t_ready = Instant::now();
+					let _ = ready_tx.send(());
+					thread::sleep(hold / 2);
+					rr.mid = Some(gate_op(&store, "r", "exists", k1.clone(), vec![], true));
+					let el = t_ready.elapsed();
+					if el < hold {
+						thread::sleep(hold - el);
+					}
+					let mut v = vec![];
+					let mut bad = false;
+					for x in &mut it {
+						match x {
+							Ok(kv) => v.push(kv),
+							Err(_) => {
+								bad = true;
+								break;
+							}
+						}
+					}
+					rr.tail.push(("kv it-next t1 1000000".into(), if bad { "err".into() } else { fmt_items(&v) }));
+					rr.t_release = Some(Instant::now());
+					drop(it);
+					rr.tail.push(("kv it-close t1".into(), "ok".into()));
+				} else {
+					// the batch() call at the threshold: requests the resize, deferred behind R's own
+					// iterator; R passes the gate as nested
+					let mut b = match store.batch() {
+						Ok(b) => b,
+						Err(e) => {
+							rr.fails.push(format!("R: Store::batch under its own iterator failed: {:?}", e));
+							let _ = ready_tx.send(());
+							return;
+						}
+					};
+					rr.head.push(("kv begin".into(), "ok".into()));
+					drop(it);
+					rr.head.push(("kv it-close t1".into(), "ok".into()));
+					let ans = fmt_unit(b.put(Some(b'A'), b"rkey", &rval));
+					if ans != "ok" {
+						rr.fails.push("R: put into the long-lived batch failed".to_string());
+					}
+					rr.head.push((format!("kv put 65 {} {}", hex(b"rkey"), valtok(&rval)), ans));
+					let t_ready = Instant::now();
+					let _ = ready_tx.send(());
+					thread::sleep(hold / 2);
+					// plain-store lookup of the un-committed key on the writer thread: nested, and invisible
+					rr.mid = Some(gate_op(&store, "r", "exists", b"rkey".to_vec(), vec![], true));
+					let el = t_ready.elapsed();
+					if el < hold {
+						thread::sleep(hold - el);
+					}
+					rr.t_release = Some(Instant::now());
+					let ans = fmt_unit(b.commit());
+					if ans != "ok" {
+						rr.fails.push("R: commit of the long-lived batch failed".to_string());
+					}
+					rr.tail.push(("kv commit".into(), ans));
+				}
+			}));
+			if r.is_err() {
+				rr.fails.push("R panicked".to_string());
+			}
+			let _ = rres_tx.send(rr);
+		});
+	}
+	if ready_rx.recv_timeout(Duration::from_secs(30)).is_err() {
+		sl.oracle_fail("the long-lived transaction could not be opened".to_string());
+		return sl.lines;
+	}
+
+	// ---- thread W and the waves
+	let w_done = Arc::new(std::sync::atomic::AtomicBool::new(false));
+	let (op_tx, op_rx) = mpsc::channel::<GateOp>();
+	let t_w = Instant::now();
+	{
+		let store = store.clone();
+		let w_done = w_done.clone();
+		let op_tx = op_tx.clone();
+		thread::spawn(move || {
+			global::set_local_chain_type(ChainTypes::AutomatedTesting);
+			let g = gate_op(&store, "w", "batch", b"wkey".to_vec(), vec![0x57u8; 30_000], false);
+			w_done.store(true, std::sync::atomic::Ordering::SeqCst);
+			let _ = op_tx.send(g);
+		});
+	}
+	let waves: Vec<u64> = vec![400, hold_ms / 2, hold_ms.saturating_sub(1500).max(600)];
+	let kinds: [&'static str; 4] = ["exists", "get_ser", "iter", "batch"];
+	let mut expected = 1usize;
+	for (wi, at) in waves.iter().enumerate() {
+		let el = t_w.elapsed();
+		if el < Duration::from_millis(*at) {
+			thread::sleep(Duration::from_millis(*at) - el);
+		}
+		for (ki, kind) in kinds.iter().enumerate() {
+			let store = store.clone();
+			let op_tx = op_tx.clone();
+			let who = format!("x{}.{}", wi, ki);
+			let key = match *kind {
+				"exists" => k1.clone(),
+				"get_ser" => b"slow".to_vec(),
+				"iter" => vec![],
+				_ => format!("xkey{}", wi).into_bytes(),
+			};
+			let val = if *kind == "batch" { vec![0x58u8 + wi as u8; 2_000] } else { vec![] };
+			let waiting = !w_done.load(std::sync::atomic::Ordering::SeqCst);
+			let kind = *kind;
+			expected += 1;
+			thread::spawn(move || {
+				global::set_local_chain_type(ChainTypes::AutomatedTesting);
+				let g = gate_op(&store, &who, kind, key, val, waiting);
+				let _ = op_tx.send(g);
+			});
+		}
+	}
+	drop(op_tx);
+
+	// ---- collect (watchdog: the window plus a minute)
+	let deadline = t_w + Duration::from_millis(hold_ms) + Duration::from_secs(60);
+	let rr = match rres_rx.recv_timeout(deadline.saturating_duration_since(Instant::now())) {
+		Ok(rr) => rr,
+		Err(_) => {
+			sl.oracle_fail("the thread holding the long-lived transaction never finished".to_string());
+			return sl.lines;
+		}
+	};
+	let mut ops: Vec<GateOp> = vec![];
+	while ops.len() < expected {
+		match op_rx.recv_timeout(deadline.saturating_duration_since(Instant::now()).max(Duration::from_millis(10))) {
+			Ok(g) => ops.push(g),
+			Err(_) => {
+				let got: Vec<String> = ops.iter().map(|g| g.who.clone()).collect();
+				sl.oracle_fail(format!(
+					"STALL: {} of {} operations issued while the resize was pending have not returned {} s after the long-lived transaction was closed (returned: {})",
+					expected - ops.len(), expected, 60, got.join(",")
+				));
+				break;
+			}
+		}
+	}
+	let stalled = ops.len() < expected;
+	for f in rr.fails.iter() {
+		sl.oracle_fail(f.clone());
+	}
+	let t_release = rr.t_release.unwrap_or_else(Instant::now);
+
+	// ---- R's lines
+	for (l, r) in rr.head.iter() {
+		if l == "kv begin" {
+			sl.sh.stack.push(vec![]);
+			// R's batch() call requested the resize; its own commit leaves the old map in the meta page
+			sl.line(&format!("kv rz-batch same=1 other=0 settled=1 used={}", used), "unobserved");
+		}
+		if l.starts_with("kv put 65") && r == "ok" {
+			sl.sh.write((db_id(Some(b'A')), b"rkey".to_vec()), Some(rval.clone()));
+		}
+		sl.line(l, r);
+	}
+	let mut waits: Vec<String> = vec![];
+	if let Some(g) = rr.mid.as_ref() {
+		let ms = (g.returned - g.issued).as_millis();
+		let wait = if g.res != "ok" {
+			"failed"
+		} else if ms < 1000 {
+			"direct"
+		} else {
+			"blocked"
+		};
+		sl.line(&format!("kv gate-op r {} nested=1 pending=1", g.kind), &g.res);
+		sl.line(&format!("kv gate-wait r {} nested=1 pending=1", g.kind), wait);
+		let want = if kind == "iter" { "true" } else { "false" };
+		if g.res != "ok" {
+			sl.oracle_fail(format!("a lookup by the thread that holds the long-lived transaction, in the middle of the window, returned {}", g.res));
+		} else if g.value != want {
+			sl.oracle_fail(format!("exists({}) on the holder's thread answered {} (committed state: {})", hex(&g.key), g.value, want));
+		}
+		if wait == "blocked" {
+			sl.oracle_fail(format!("the holder's own nested lookup waited {} ms at the gate (a thread inside a transaction must never wait for the resize it defers)", ms));
+		}
+		sl.line(&format!("kv read-outside r exists 65 {}", hex(&g.key)), &g.value);
+		waits.push(format!("r/{}(nested):{}ms", g.kind, ms));
+	} else {
+		sl.oracle_fail("the holder's nested lookup was not performed".to_string());
+	}
+	for (l, r) in rr.tail.iter() {
+		if l == "kv commit" {
+			if r == "ok" {
+				sl.sh.commit();
+			} else {
+				sl.sh.stack.pop();
+			}
+		}
+		if l.starts_with("kv it-next t1 1000000") {
+			let all = Shadow::items(&sl.sh.committed, Some(b'B'));
+			let want = fmt_items(&all[1.min(all.len())..]);
+			if *r != want {
+				sl.oracle_fail(format!("the iterator held for {} ms yielded {} at its end but its snapshot has {}", hold_ms, r, want));
+			}
+		}
+		sl.line(l, r);
+	}
+
+	// ---- the operations that arrived during the window: reads first, then the batches in commit order
+	ops.sort_by(|a, b| a.who.cmp(&b.who));
+	let mut batches: Vec<&GateOp> = vec![];
+	for g in ops.iter() {
+		let pending = g.issued + Duration::from_millis(200) < t_release;
+		let ms = (g.returned - g.issued).as_millis();
+		let wait = if g.res != "ok" {
+			"failed"
+		} else if !pending {
+			"direct"
+		} else if g.returned >= t_release {
+			"blocked"
+		} else {
+			"early"
+		};
+		sl.line(&format!("kv gate-op {} {} nested=0 pending={}", g.who, g.kind, if pending { 1 } else { 0 }), &g.res);
+		sl.line(&format!("kv gate-wait {} {} nested=0 pending={}", g.who, g.kind, if pending { 1 } else { 0 }), wait);
+		waits.push(format!("{}/{}:{}ms{}", g.who, g.kind, ms, if g.w_waiting || g.who == "w" { "" } else { "(W already through)" }));
+		if g.res != "ok" {
+			sl.oracle_fail(format!(
+				"{} issued {} ms after W's batch() found the map above the threshold (resize deferred behind a transaction open for {} ms) returned {} after waiting {} ms - operations must wait for the resize, not fail",
+				g.kind, (g.issued - t_w).as_millis(), hold_ms, g.res, ms
+			));
+		}
+		match g.kind {
+			"exists" => {
+				if g.res == "ok" && g.value != want_exists {
+					sl.oracle_fail(format!("{} exists answered {} for a committed key", g.who, g.value));
+				}
+				sl.line(&format!("kv read-outside {} exists 65 {}", g.who, hex(&g.key)), &g.value);
+			}
+			"get_ser" => {
+				if g.res == "ok" && g.value != want_rec {
+					sl.oracle_fail(format!("{} get_ser answered {} but {} is committed", g.who, g.value, want_rec));
+				}
+				sl.line(&format!("kv read-outside {} getrec 65 {}", g.who, hex(&g.key)), &g.value);
+			}
+			"iter" => {
+				if g.res == "ok" && g.value != want_iter {
+					sl.oracle_fail(format!("{} iteration yielded {} but {} is committed", g.who, g.value, want_iter));
+				}
+				sl.line(&format!("kv read-outside {} iter 66", g.who), &g.value);
+			}
+			_ => batches.push(g),
+		}
+		if g.kind == "batch" && g.who == "w" && g.res == "ok" && g.returned < t_release {
+			sl.oracle_fail(format!(
+				"W's Store::batch() returned {} ms BEFORE the long-lived transaction was closed",
+				(t_release - g.returned).as_millis()
+			));
+		}
+	}
+	batches.sort_by_key(|g| g.committed.unwrap_or(g.returned));
+	for g in batches.iter() {
+		let mut parts = g.value.split('|');
+		let (p, c) = (parts.next().unwrap_or("err"), parts.next().unwrap_or("err"));
+		if g.res.ends_with("@batch") || g.res == "panic" {
+			// no batch came into being: the failure is on the `gate-op` line
+			continue;
+		}
+		sl.sh.stack.push(vec![]);
+		sl.line("kv begin", "ok");
+		if p == "ok" {
+			sl.sh.write((db_id(Some(b'Z')), g.key.clone()), Some(g.val.clone()));
+		}
+		sl.line(&format!("kv put 90 {} {}", hex(&g.key), valtok(&g.val)), p);
+		if c == "ok" {
+			sl.sh.commit();
+		} else {
+			sl.sh.stack.pop();
+		}
+		sl.line("kv commit", c);
+	}
+	// ---- afterwards
+	let post = meta_info(&dir).unwrap_or((0, 0, 0));
+	if !stalled {
+		if post.0 <= pre.0 {
+			sl.oracle_fail(format!(
+				"usage {} of {} was above the threshold, the resize was deferred behind a transaction open for {} ms, and after everything was closed and {} batches committed the map is still {} bytes",
+				used, pre.0, hold_ms, batches.len(), post.0
+			));
+		}
+		let other = if kind == "iter" { 1 } else { 0 };
+		sl.line(&format!("kv rz-batch same=0 other={} settled=1 used={}", other, used), &post.0.to_string());
+		// the schedule the threads went through: R = 0, W = 1, the others 2..
+		let mut seq: Vec<String> = vec!["e0".into(), "q".into()];
+		if kind == "batch" {
+			seq.extend(["e0".to_string(), "l0".to_string()]);
+		}
+		seq.extend(["e0".to_string(), "l0".to_string(), "l0".to_string(), "w".to_string()]);
+		for i in 0..ops.len() {
+			seq.push(format!("e{}", i + 1));
+			seq.push(format!("l{}", i + 1));
+		}
+		if ops.iter().all(|g| g.res == "ok") && rr.fails.is_empty() {
+			sl.line(&format!("kv txseq {} {}", ops.len() + 1, seq.join(",")), "completed:resizes=1");
+		}
+		let ans = fmt_get(&store.get_ser::<Vec<u8>>(Some(b'Z'), b"wkey", None));
+		sl.line(&format!("kv read-outside main get 90 {}", hex(b"wkey")), &ans);
+		if kind == "batch" {
+			let ans = fmt_get(&store.get_ser::<Vec<u8>>(Some(b'A'), b"rkey", None));
+			if ans != format!("some:{}", showval(&rval)) {
+				sl.oracle_fail(format!("the long-lived batch committed but its key reads {}", ans));
+			}
+			sl.line(&format!("kv read-outside main get 65 {}", hex(b"rkey")), &ans);
+		}
+		let ans = dump_store(&store).unwrap_or_else(|_| "err".to_string());
+		if ans != sl.sh.dump() {
+			sl.oracle_fail("the committed state after the window differs from the committed batches".to_string());
+		}
+		sl.line("kv obs", &ans);
+	}
+	sl.raw(&format!(
+		"#STAT slowreader {}: map {} -> {}; long-lived transaction open {} ms; {} operations issued during the window, {} failed; waits: {}",
+		sl.tag.clone(), pre.0, post.0, hold_ms, ops.len(), ops.iter().filter(|g| g.res != "ok").count(), waits.join(" ")
+	));
+	sl.lines
+}
+
+fn mode_slowreader(work: &str, seed: u64, thorough: bool) {
+	let holds: Vec<u64> = match std::env::var("KV_SLOW_HOLD_MS") {
+		Ok(s) => s.split(',').filter_map(|x| x.trim().parse().ok()).collect(),
+		Err(_) => {
+			if thorough {
+				vec![12_500, 45_000, 100_000]
+			} else {
+				vec![12_500]
+			}
+		}
+	};
+	let mut handles = vec![];
+	for h in holds.iter() {
+		for kind in ["iter", "batch"] {
+			let dir = format!("{}/slow_{}_{}", work, kind, h);
+			let h = *h;
+			handles.push((kind, h, thread::spawn(move || slow_scenario(dir, seed, kind, h))));
+		}
+	}
+	let mut out = Out::stdout();
+	let mut total = 0usize;
+	for (kind, h, jh) in handles {
+		match jh.join() {
+			Ok(lines) => {
+				for l in lines {
+					if l.starts_with('#') {
+						out.raw(&l);
+					} else {
+						let (lhs, rhs) = l.split_once(" => ").unwrap_or((l.as_str(), ""));
+						out.line(lhs, rhs);
+						total += 1;
+					}
+				}
+			}
+			Err(_) => out.raw(&format!("#ORACLE-FAIL C18 slowreader {} hold={}ms: the scenario panicked", kind, h)),
+		}
+	}
+	out.raw(&format!("#STAT slowreader total: {} scenarios, windows {:?} ms, {} lines", holds.len() * 2, holds, total));
+	out.flush();
+}
+
+// ---------------------------------------------------------------------------------------------
+// mode newprobe (NOT part of the check; run by hand): `Store::new` on an environment that is
+// already open takes an LMDB write transaction WITHOUT the resize gate (Gen/KvGate.lean,
+// `ungatedTxnFns`).  A thread creating handles in a loop while a deferred resize is released:
+// does the waiter's env.resize() meet an open, uncounted write transaction?
+// ---------------------------------------------------------------------------------------------
+fn mode_newprobe(work: &str, _seed: u64, _thorough: bool) {
+	let rounds: u64 = std::env::var("KV_PROBE_ROUNDS").ok().and_then(|s| s.parse().ok()).unwrap_or(6);
+	let mut out = Out::stdout();
+	let (mut grown, mut not_grown) = (0u64, 0u64);
+	for round in 0..rounds {
+		let dir = format!("{}/newprobe{}", work, round);
+		let store = Arc::new(open_store(&dir));
+		let mut n = 0u64;
+		loop {
+			let m = meta_info(&dir).unwrap_or((1, 0, 0));
+			if m.1 * 4096 * 10 > 9 * m.0 || n > 60 {
+				break;
+			}
+			let mut b = store.batch().unwrap();
+			b.put(Some(b'Z'), format!("fill{:03}", n).as_bytes(), &vec![n as u8; 60_000]).unwrap();
+			b.commit().unwrap();
+			n += 1;
+		}
+		let pre = meta_info(&dir).unwrap_or((0, 0, 0));
+		let it = store.iter(Some(b'Z'), kvpair).unwrap();
+		let stop = Arc::new(std::sync::atomic::AtomicBool::new(false));
+		let news = {
+			let dir = dir.clone();
+			let stop = stop.clone();
+			thread::spawn(move || {
+				global::set_local_chain_type(ChainTypes::AutomatedTesting);
+				let (mut ok, mut bad) = (0u64, 0u64);
+				while !stop.load(std::sync::atomic::Ordering::SeqCst) {
+					match Store::new(&dir, None, None, DBS.to_vec(), None, None) {
+						Ok(_) => ok += 1,
+						Err(_) => bad += 1,
+					}
+				}
+				(ok, bad)
+			})
+		};
+		let w = {
+			let store = store.clone();
+			thread::spawn(move || {
+				global::set_local_chain_type(ChainTypes::AutomatedTesting);
+				let mut b = store.batch().map_err(|e| format!("{:?}", e))?;
+				b.put(Some(b'Z'), b"wkey", &vec![7u8; 30_000]).map_err(|e| format!("{:?}", e))?;
+				b.commit().map_err(|e| format!("{:?}", e))
+			})
+		};
+		thread::sleep(Duration::from_millis(400));
+		drop(it);
+		let wres = w.join().unwrap_or(Err("panic".to_string()));
+		let post = meta_info(&dir).unwrap_or((0, 0, 0));
+		stop.store(true, std::sync::atomic::Ordering::SeqCst);
+		let (ok, bad) = news.join().unwrap_or((0, 0));
+		if post.0 > pre.0 {
+			grown += 1;
+		} else {
+			not_grown += 1;
+		}
+		out.raw(&format!(
+			"#STAT newprobe round {}: used {} of {}; W's batch after the deferred resize: {:?}; map after W's commit {}; Store::new calls meanwhile: {} ok {} failed",
+			round, pre.1 * 4096, pre.0, wres, post.0, ok, bad
+		));
+		out.flush();
+	}
+	out.raw(&format!("#STAT newprobe total: deferred resize took effect in {} rounds, did NOT in {} rounds", grown, not_grown));
+	out.flush();
+}
+
 fn main() {
 	quiet_panics();
 	let args: Vec<String> = std::env::args().collect();
@@ -4748,6 +5433,8 @@ fn main() {
 		"growth" => mode_growth(&work, seed, thorough),
 		"inflight" => mode_inflight(&work, seed, thorough),
 		"handles" => mode_handles(&work, seed, thorough),
+		"slowreader" => mode_slowreader(&work, seed, thorough),
+		"newprobe" => mode_newprobe(&work, seed, thorough),
 		_ => {
 			eprintln!("unknown mode {}", mode);
 			std::process::exit(2);
